@@ -285,7 +285,7 @@ func runC17(ctx *Ctx, idx int) {
 
 func init() {
 	register("C17", func(ctx *Ctx) {
-		n := ctx.N(400, 20000)
+		n := ctx.N(3000, 40000)
 		for i := 0; i < n; i++ {
 			runC17(ctx, i)
 		}
